@@ -494,6 +494,10 @@ func (vt *Model) print(seq ansi.Print) {
 	default:
 		vt.cursor.col += column(w)
 	}
+	if vt.cursor.col > vt.margin.right+1 {
+		// a glyph wider than the screen
+		vt.cursor.col = vt.margin.right + 1
+	}
 	if vt.cursor.col >= vt.margin.right+1 && vt.mode.decawm {
 		vt.lastCol = true
 	}
